@@ -130,13 +130,35 @@ def make_makefile():
     return rc, out
 
 
+class TargetLock:
+    """lock specific to a set of make targets (different targets build concurrently)"""
+    def __init__(self, targets):
+        d = os.path.join(ROOT, ".build.lock.d")
+        os.makedirs(d, exist_ok=True)
+        key = re.sub(r"[^A-Za-z0-9_.]", "_", " ".join(targets))[:120]
+        self.path = os.path.join(d, key)
+
+    def __enter__(self):
+        self.f = open(self.path, "w")
+        fcntl.flock(self.f, fcntl.LOCK_EX)
+        return self
+
+    def __exit__(self, *a):
+        fcntl.flock(self.f, fcntl.LOCK_UN)
+        self.f.close()
+
+
 def coq_make(targets, jobs=16):
     """Full .vo build of the given targets (dependency cone only). Returns (ok, log)."""
     with BuildLock():
         rc, out = make_makefile()
-        if rc != 0:
-            return False, out
+    if rc != 0:
+        return False, out
+    with TargetLock(targets):
         rc, out = run_cmd(["make", f"-j{jobs}"] + targets, cwd=COQ, timeout=COQ_TIMEOUT)
+        if rc != 0 and "Error" not in out[-3000:]:
+            # a concurrent build of a shared dependency can leave a truncated .vo: retry once
+            rc, out = run_cmd(["make", f"-j{jobs}"] + targets, cwd=COQ, timeout=COQ_TIMEOUT)
         return rc == 0, out
 
 
@@ -146,8 +168,9 @@ def coq_prop_file(cid):
     rel = f"props/{cid}.v"
     with BuildLock():
         rc, out = make_makefile()
-        if rc != 0:
-            return False, out
+    if rc != 0:
+        return False, out
+    with TargetLock([rel + "o"]):
         vo = os.path.join(COQ, rel + "o")
         if os.path.exists(vo):
             os.remove(vo)
